@@ -9,7 +9,7 @@ from pathlib import Path
 
 from .common import MachineryError, run_tlc
 from .corpus import run_specs
-from .pairs import look_groups, repeat_triples, twin_pairs
+from .pairs import history_pairs, look_groups, repeat_triples, twin_pairs
 from .tracecheck import validate
 
 _LINE = re.compile(r'^<<"PAIR", "(.*)">>$')
@@ -39,7 +39,9 @@ def main(d: str, seed: str, tier: str) -> None:
     tw = twin_pairs(seed, n_twin)
     rp = repeat_triples(seed, n_rep, n_sub)
     lk = look_groups(seed, n_look)
-    specs = [s for p in tw for s in p] + [s for t in rp for s in t if s is not None] + [s for a, bs in lk for s in [a] + bs]
+    hp = history_pairs(seed, 8 if tier == "quick" else 40)
+    specs = ([s for p in tw for s in p] + [s for t in rp for s in t if s is not None] + [s for a, bs in lk for s in [a] + bs]
+             + [s for p in hp for s in p])
     t0 = time.time()
     runs = run_specs(specs)
     by = {r["name"]: r for r in runs}
@@ -53,6 +55,8 @@ def main(d: str, seed: str, tier: str) -> None:
         pairs.append({"name": a["name"] + "~scrambled", "kind": "repeat", "a": by[a["name"]]["events"], "b": by[b["name"]]["events"]})
         if c is not None:
             pairs.append({"name": a["name"] + "~subprocess", "kind": "repeat", "a": by[a["name"]]["events"], "b": by[c["name"]]["events"]})
+    for a, b in hp:
+        pairs.append({"name": a["name"] + "~after_others", "kind": "repeat", "a": by[a["name"]]["events"], "b": by[b["name"]]["events"]})
     # C20: what the accessors answer must not depend on when the tree was looked at before
     def strip(evs):
         return [{k: v for k, v in e.items() if k not in ("i", "b")} for e in evs]
@@ -82,7 +86,7 @@ def main(d: str, seed: str, tier: str) -> None:
     traced = [r for r in runs if r["events"] and r["spec"].get("look") is None]
     v = validate(traced, d / "tlc", tag="pairtraces")
     (d / "tlc" / "pairtraces.json").unlink()
-    stats = {"twin_pairs": len(tw), "repeat_pairs": len(rp), "subprocess_pairs": sum(1 for t in rp if t[2] is not None),
+    stats = {"twin_pairs": len(tw), "repeat_pairs": len(rp), "subprocess_pairs": sum(1 for t in rp if t[2] is not None), "history_pairs": len(hp),
              "twin_with_cma": sum(1 for a, _ in tw if any(l["engine"].startswith("CMA") for l in a["levels"])),
              "twin_with_local": sum(1 for a, _ in tw if any(l["engine"] == "LOCAL" for l in a["levels"])),
              "twin_with_sprouts": sum(1 for a, _ in tw if any(e["e"] == "sprout" and e["ret"] for e in by[a["name"]]["events"])),
